@@ -414,6 +414,10 @@ def tt_hypotheses(prog, R):
                 out.append(("tree-traversal-postselect-subtree-renormalised", rew(Rb), evb))
         except TypeError:
             pass
+    # mixed variant of the same mechanism: branch predicates are evaluated on Python values (so `m - m` works), but the statistics of
+    # measurement-value expressions are gathered from numpy-boolean outcomes (True + True -> True)
+    for ids in (None, {last}):
+        out.append(("tree-traversal-bool-outcome-arith", R, lambda e, oc, ids=ids: D.eval_expr_boolish(e, oc, ids)))
     return out
 
 
@@ -562,6 +566,27 @@ def run_batched(ctx, qp, prog, meas, Rs, method, seed, in_cond=False):
         ctx.ev(mon)
         return [(mon, f"[{tag}] {len(rs)} results for {len(meas)} measurements", f"{method}-result-arity", None, None)]
     out = _compare_batched(ctx, prog, meas, rs, Rs, method, tag)
+    if in_cond:
+        # A broadcast parameter that only occurs inside a classically controlled gate whose branch can never be taken (e.g. the
+        # else-branch of `m0 >= m0`) leaves no batched operation in the executed circuit; an un-batched result is then the
+        # plain-Python-control-flow answer as well.  Accept a missing batch axis when every batch entry has the same reference value
+        # and the returned value equals it (recorded, not judged).
+        kept = []
+        for (mo, msg, mech_, o, e), m, r in [(x, None, None) for x in out]:
+            kept.append((mo, msg, mech_, o, e))
+        out2 = []
+        for item in kept:
+            mo, msg, mech_, o, e = item
+            if str(mech_).endswith("-analytic-broadcast-shape") and o is not None and e is not None:
+                idx = next((k for k, mm in enumerate(meas) if f"] {mm[0]}: shape" in msg), None)
+                if idx is not None:
+                    exp = np.stack([np.asarray(ref_distribution(Rb, meas[idx])["value"], dtype=float) for Rb in Rs])
+                    got = np.asarray(rs[idx], dtype=float)
+                    if exp.shape[0] * got.size == exp.size and np.allclose(exp, exp[0], atol=ATOL) and np.allclose(got.reshape(exp[0].shape), exp[0], atol=ATOL):
+                        ctx.count("broadcast.dead_branch_unbatched_result_accepted")
+                        continue
+            out2.append(item)
+        out = out2
     if method == "deferred" and in_cond:
         # mechanism: a broadcast parameter sits in a classically controlled gate; deferral wraps it in a generic Controlled
         # operator whose batch_size is None (ControlledOp2 does not delegate batch_size to its base)
